@@ -44,6 +44,7 @@ JudgeRead(s, e) ==
   IN
   IF ~LegalWindow(e) THEN {}
   ELSE IF Ended(e) = "panic" THEN {"C10/Panic/Messages"}
+  ELSE IF Ended(e) = "hang" THEN {"C10/Hang/Messages", P \o "/Hang"}
   \* ... or fails on a record whose definition lies before that point (the same reads are judged on fresh Readers too)
   ELSE IF moved /\ scanlike /\ Ended(e) = "error" THEN {P \o "/Session/StreamNotRewound"}
   ELSE IF Ended(e) \in {"error", "openerror"} THEN
